@@ -754,13 +754,13 @@ Proof. intro pol. unfold inv_desc, merged_media. cbn. split; [constructor | intr
 Lemma apply_op_same : forall T p o p', apply_op T p o = Ok p' -> same_descs p p' /\ p_seen p' = p_seen p.
 Proof.
   intros T p o p' H. destruct o as [k|k d h| |i prefs|i d]; cbn [apply_op] in H.
-  - unfold add_track in H.
+  - unfold add_track in H. destruct (negb (is_av k)); [discriminate|].
     destruct (find_idx (fun t => (t_kind t =? k) && negb (t_hastrack t)) (p_trs p)) as [i|].
     + destruct (nth_error (p_trs p) i) as [t|]; [|discriminate]. bind_inv H d Hd. inversion H; subst.
       unfold same_descs. cbn. tauto.
     + inversion H; subst. destruct (create_transceiver_spec p SendRecv k true) as [bd [id [_ [_ [_ Hs]]]]].
       unfold same_session in Hs. unfold same_descs. tauto.
-  - unfold add_transceiver in H. inversion H; subst.
+  - unfold add_transceiver in H. destruct (negb (is_av k)); [discriminate|]. inversion H; subst.
     destruct (create_transceiver_spec p d k h) as [bd [id [_ [_ [_ Hs]]]]].
     unfold same_session in Hs. unfold same_descs. tauto.
   - unfold create_data_channel in H. destruct (p_sctp p).
